@@ -32,6 +32,7 @@ func (m *Method) Full() string { return m.Pkg + "." + m.Class + "." + m.Name }
 
 type Class struct {
 	Pkg, Name string
+	Extend    string // full name of the extended project class ("" = none); only with Opts.Inheritance
 	Kind      string // Class | Interface (interfaces with default methods have bodies, hence calls) | "" (not recorded)
 	Methods   []*Method
 }
@@ -83,6 +84,7 @@ type Opts struct {
 	DefaultPkg                     bool // some classes live in the default package (empty package name)
 	Kinds                          bool // classes are Class / Interface / unrecorded (otherwise all "Class")
 	CaseTwins                      bool // an uncalled method whose name differs only in case from a called one
+	Inheritance                    bool // classes extend one another (chains of 2-4) and inherited methods are called through a subclass receiver
 	OddRunes                       bool // names may contain identifier-ignorable format characters (U+200C, U+00AD) and non-ASCII letters
 }
 
@@ -276,6 +278,43 @@ func Generate(r *run.Rand, o Opts) *Model {
 		if len(me.Calls) > 1 && r.Bool() {
 			i, j := r.Intn(len(me.Calls)), r.Intn(len(me.Calls))
 			me.Calls[i], me.Calls[j] = me.Calls[j], me.Calls[i]
+		}
+	}
+	if o.Inheritance && nCls >= 2 {
+		for i := 1; i < nCls; i++ {
+			if r.Chance(2, 3) {
+				m.Classes[i].Extend = m.Classes[i-1].Pkg + "." + m.Classes[i-1].Name
+			}
+		}
+		byFull := map[string]*Class{}
+		for _, c := range m.Classes {
+			byFull[c.Pkg+"."+c.Name] = c
+		}
+		for _, c := range m.Classes {
+			// ancestors of c, nearest first
+			var anc []*Class
+			for p := byFull[c.Extend]; p != nil && len(anc) < 6; p = byFull[p.Extend] {
+				anc = append(anc, p)
+			}
+			if len(anc) == 0 {
+				continue
+			}
+			own := map[string]bool{}
+			for _, me := range c.Methods {
+				own[me.Name] = true
+			}
+			for k := r.Range(1, 3); k > 0; k-- {
+				a := anc[r.Intn(len(anc))]
+				if len(a.Methods) == 0 {
+					continue
+				}
+				t := a.Methods[r.Intn(len(a.Methods))]
+				if own[t.Name] {
+					continue
+				}
+				// a call of the inherited method through a receiver of the subclass type
+				add(all[r.Intn(n)], CallRef{Pkg: c.Pkg, Class: c.Name, Name: t.Name})
+			}
 		}
 	}
 	if o.CaseTwins && r.Chance(1, 4) {
